@@ -2,6 +2,7 @@ package node
 
 import (
 	"fmt"
+	"strings"
 
 	"github.com/mosaicnetworks/babble/src/crypto/keys"
 	hg "github.com/mosaicnetworks/babble/src/hashgraph"
@@ -127,8 +128,15 @@ func VerifHarness_C12_O1() {
 	n := 1 + verifChoice("n", maxN)
 	m := verifChoice("m", maxM+1)
 	var members []*peers.Peer
+	// the responder may spell the validators' keys in lower-case hex (same keys,
+	// same peer-set hash)
+	lower := verifChoice("frameKeysLowerCase", 2) == 1
 	for i := 0; i < n; i++ {
-		members = append(members, verifPeer(i))
+		p := verifPeer(i)
+		if lower {
+			p = peers.NewPeer(strings.ToLower(p.PubKeyHex), p.NetAddr, p.Moniker)
+		}
+		members = append(members, p)
 	}
 	frame := verifMkFrame(members, 5)
 	frameHash, _ := frame.Hash()
@@ -235,7 +243,11 @@ func VerifHarness_C14_O1() {
 			knownInSet = true
 		}
 	}
+	before := vc.digest()
 	err := vc.c.fastForward(block, frame)
+	if err != nil {
+		verifAssert("refused-snapshot-leaves-validators-and-node-untouched", verifCoreDigestEq(before, vc.digest()))
+	}
 	if err == nil {
 		verifAssert("adopted-snapshot-has-some-valid-signature", anyValid)
 		// the property: some valid signer belongs to a set the node knows.  The
